@@ -691,12 +691,15 @@ def check_C08(ctx):
         if k < 2: ctx.sample(dict(book=f["food.yaml"], log=f["log.yaml"]))
     # odd invocations: missing arguments, a bad regexp, odd layouts and period strings, cyclic book with a huge limit
     f0 = {"food.yaml": b"a:\n  a: 1\nb:\n  kcal: 2\n", "log.yaml": b"2021/01/21:\n  a: 1\n  b: 2\n"}
-    base = dict(files=f0, f_today="2021/02/01", **NOCOLOR)
+    f1 = {"food.yaml": b"a:\n  kcal: 1\nb:\n  kcal: 2\n  a: 1\n", "log.yaml": b"2021/01/21:\n  a: 1\n  b: 2\n  bread: 3\n"}
+    base = dict(files=f1, f_today="2021/02/01", **NOCOLOR)
+    cyc = dict(files=f0, f_today="2021/02/01", **NOCOLOR)
     odd = [dict(base, cmd="element-total"), dict(base, cmd="lint"), dict(base, cmd="summary"), dict(base, cmd="reg", single_food="(["), dict(base, cmd="reg", single_food="a.*b"),
            dict(base, cmd="reg", f_fmt="Jan 2 2006"), dict(base, cmd="reg", f_fmt=""), dict(base, cmd="reg", g_begin="next tuesday"), dict(base, cmd="reg", g_begin="garbage!!"),
-           dict(base, cmd="reg", f_depth=10000000), dict(base, cmd="csv-db-resolved", f_depth=10000000), dict(base, cmd="bal", f_depth=0), dict(base, cmd="totals", f_depth=-5),
+           dict(cyc, cmd="reg", f_depth=10000000), dict(cyc, cmd="csv-db-resolved", f_depth=10000000), dict(cyc, cmd="bal", f_depth=0), dict(cyc, cmd="totals", f_depth=-5),
+           dict(base, cmd="reg", f_depth=0), dict(base, cmd="csv-db-resolved", f_depth=-1),
            dict(base, cmd="summary", arg=b"not a date"), dict(base, cmd="reg", single_food="("), dict(base, cmd="reg", single_food="*bread"), dict(base, cmd="reg", single_food="a(b", old=True),
-           dict(dict(base, files=dict(f0, **{"log.yaml": b""})), cmd="reg", single_food="("), dict(base, cmd="reg", no_totals=True, totals_only=True), dict(base, cmd="reg", no_totals=True, totals_only=True, old=True),
+           dict(dict(base, files=dict(f1, **{"log.yaml": b""})), cmd="reg", single_food="("), dict(base, cmd="reg", no_totals=True, totals_only=True), dict(base, cmd="reg", no_totals=True, totals_only=True, old=True),
            dict(base, cmd="stats", f_today="2020/01/01"), dict(base, cmd="stats", f_today="1999/12/31"), dict(base, cmd="stats", f_fmt="02.01.2006"), dict(base, cmd="reg", no_database=True), dict(base, cmd="stats", no_database=True)]
     # cycles of every small length (direct, indirect, reached through a chain) under a huge limit given by flag, environment or configuration file
     for cyc in (1, 2, 3, 5):
